@@ -20,7 +20,9 @@ Section Hub.
 
   Definition snap := pid -> option V.                (* a snapshot of last read values (absent / unavailable = None) *)
 
-  Variable feval : E -> snap -> eout W.              (* Expression.eval over a snapshot, ValueUnavailable mapped to OVal None *)
+  (* Expression.eval over the LIVE enabled flags and a snapshot of last read values (PortValue._eval: a disabled port is an
+     error whatever the snapshot says — AVAILABLE / DEFAULT catch it); ValueUnavailable mapped to OVal None *)
+  Variable feval : E -> (pid -> bool) -> snap -> eout W.
   Variable deps : E -> list pid.                     (* get_deps(): the `$id` dependencies *)
   Variable coerce : pid -> option W -> eout V.       (* adapt_value_type for that port (may fail: int(nan)...) *)
 
@@ -61,6 +63,9 @@ Section Hub.
   (* push_eval's snapshot: the last read values of the enabled ports *)
   Definition lasts (s : state) : snap :=
     fun p => if existsb (Nat.eqb p) (all_ids s) && en (ports s p) then last (ports s p) else None.
+
+  (* the live enabled flags, as PortValue._eval sees them (port.is_enabled()) *)
+  Definition ens (s : state) : pid -> bool := fun p => en (ports s p).
 
   Inductive event :=
   | PassBegin                                  (* main.update() acquired the lock *)
@@ -137,7 +142,7 @@ Section Hub.
         match ph x, evq x, expr x with
         | Idle, sn :: rest, Some e =>
             let x0 := {| src := src x; last := last x; expr := expr x; evq := rest; ph := Idle; forced := forced x; en := en x |} in
-            match (if existsb (fun d => negb (en (ports s d))) (deps e) then OErr else feval e sn) with
+            match feval e (ens s) sn with        (* the queued snapshot, the enabled flags of NOW *)
             | OErr => Some (set_port s q x0)
             | OVal v =>
                 match coerce q v with
@@ -194,14 +199,13 @@ Section Hub.
       evq (ports s p) = [] /\ ph (ports s p) = Idle /\ forced (ports s p) = false
       /\ (en (ports s p) = true -> veqb (src (ports s p)) (last (ports s p)) = true).
 
-  (* the driver of q holds, and the hub reports, the coerced value of q's expression over the current values *)
-  Definition dep_off (s : state) (e : E) : bool := existsb (fun d => negb (en (ports s d))) (deps e).
-
+  (* the driver of q holds, and the hub reports, the coerced value of q's expression over the current values and the current
+     enabled flags; silent only when the evaluation or the coercion is an error *)
   Definition follows (s : state) (q : pid) : Prop :=
     match (if en (ports s q) then expr (ports s q) else None) with
     | None => True                                       (* no expression, or the port is disabled *)
     | Some e =>
-        match (if dep_off s e then OErr else feval e (lasts s)) with
+        match feval e (ens s) (lasts s) with
         | OErr => True                                   (* evaluation error: the port keeps its value; the property is silent *)
         | OVal v =>
             match coerce q v with
@@ -229,6 +233,7 @@ Arguments pass {V E} s.
 Arguments force_all {V E} s.
 Arguments en {V E} p.
 Arguments Build_state {V E}.
+Arguments ens {V E} s.
 Arguments PassBegin {V E}.
 Arguments PassRead {V E} p.
 Arguments PassEnd {V E}.
